@@ -419,6 +419,10 @@ def build_injection(sess: Session, op: dict):
     if kind in ("old-fwd", "fwd-beyond"):
         c = S.ForwardTsnChunk()
         k = op.get("k", 0)
+        if kind == "old-fwd":
+            # "old" only while it stays less than half the number space behind: the receiver's cumulative TSN moves on
+            # between the moment this is built and the moment it arrives, and exactly half the space away is undefined
+            k = min(k, 2**30)
         c.cumulative_tsn = (rx._last_received_tsn + (-k if kind == "old-fwd" else k + 1)) % M
         c.streams = [(x[0] & 0xFFFF, x[1] & 0xFFFF) for x in op.get("streams", []) if isinstance(x, (list, tuple)) and len(x) == 2]
         return _packet(tag, bytes(c)), kind == "old-fwd"
